@@ -59,11 +59,13 @@ func newGCWorld(r *Rng, cov *Cov) *gcWorld {
 	reg := map[string]func() ecs.ID{
 		"P1": func() ecs.ID { return ecs.ComponentID[P1](&w) }, "P2": func() ecs.ID { return ecs.ComponentID[P2](&w) },
 		"P3": func() ecs.ID { return ecs.ComponentID[P3](&w) }, "P4": func() ecs.ID { return ecs.ComponentID[P4](&w) },
-		"P5": func() ecs.ID { return ecs.ComponentID[P5](&w) }, "P6": func() ecs.ID { return ecs.ComponentID[P6](&w) }, "V1": func() ecs.ID { return ecs.ComponentID[V1](&w) },
+		"P5": func() ecs.ID { return ecs.ComponentID[P5](&w) }, "P6": func() ecs.ID { return ecs.ComponentID[P6](&w) },
+		"P7": func() ecs.ID { return ecs.ComponentID[P7](&w) }, "P8": func() ecs.ID { return ecs.ComponentID[P8](&w) },
+		"P9": func() ecs.ID { return ecs.ComponentID[P9](&w) }, "V1": func() ecs.ID { return ecs.ComponentID[V1](&w) },
 		"V2": func() ecs.ID { return ecs.ComponentID[V2](&w) }, "V3": func() ecs.ID { return ecs.ComponentID[V3](&w) },
 		"Rel": func() ecs.ID { return ecs.ComponentID[RelA](&w) },
 	}
-	order := []string{"P1", "P2", "P3", "P4", "P5", "P6", "V1", "V2", "V3", "Rel"}
+	order := []string{"P1", "P2", "P3", "P4", "P5", "P6", "P7", "P8", "P9", "V1", "V2", "V3", "Rel"}
 	Shuffle(r, order)
 	for _, k := range order {
 		g.ids[k] = reg[k]()
@@ -72,7 +74,7 @@ func newGCWorld(r *Rng, cov *Cov) *gcWorld {
 		}
 	}
 	g.rel = g.ids["Rel"]
-	g.pids = []string{"P1", "P2", "P3", "P4", "P5", "P6"}
+	g.pids = []string{"P1", "P2", "P3", "P4", "P5", "P6", "P7", "P8", "P9"}
 	return g
 }
 
@@ -108,6 +110,18 @@ func (g *gcWorld) mkValue(name string) (any, []uint64) {
 		a := g.newID()
 		o := P6(newObj(a))
 		return &o, []uint64{a}
+	case "P7":
+		a := g.newID()
+		o := newObj(a)
+		return &P7{F: func() *Obj { return o }}, []uint64{a}
+	case "P8":
+		a := g.newID()
+		ch := make(chan *Obj, 1)
+		ch <- newObj(a)
+		return &P8{C: ch}, []uint64{a}
+	case "P9":
+		a := g.newID()
+		return &P9{N: a, U: unsafe.Pointer(newObj(a))}, []uint64{a}
 	default:
 		a := g.newID()
 		return &P5{I: newObj(a)}, []uint64{a}
@@ -129,6 +143,12 @@ func store(name string, p unsafe.Pointer, v any) {
 		*(*P5)(p) = *v.(*P5)
 	case "P6":
 		*(*P6)(p) = *v.(*P6)
+	case "P7":
+		*(*P7)(p) = *v.(*P7)
+	case "P8":
+		*(*P8)(p) = *v.(*P8)
+	case "P9":
+		*(*P9)(p) = *v.(*P9)
 	}
 }
 
@@ -147,6 +167,12 @@ func typedPtr(name string, p unsafe.Pointer) any {
 		return (*P5)(p)
 	case "P6":
 		return (*P6)(p)
+	case "P7":
+		return (*P7)(p)
+	case "P8":
+		return (*P8)(p)
+	case "P9":
+		return (*P9)(p)
 	case "V1":
 		return (*V1)(p)
 	case "V2":
@@ -201,6 +227,26 @@ func (g *gcWorld) verify(e ecs.Entity, name string, p unsafe.Pointer, want []uin
 	case "P6":
 		if o := *(*P6)(p); !o.ok(want[0]) {
 			return bad("object referenced by a pointer-typed component damaged")
+		}
+	case "P7":
+		f := (*P7)(p).F
+		if f == nil || !f().ok(want[0]) {
+			return bad("object captured by a closure damaged")
+		}
+	case "P8":
+		ch := (*P8)(p).C
+		if ch == nil || len(ch) != 1 {
+			return bad("channel lost or emptied")
+		}
+		o := <-ch
+		ch <- o
+		if !o.ok(want[0]) {
+			return bad("object held in a channel damaged")
+		}
+	case "P9":
+		c := (*P9)(p)
+		if c.N != want[0] || !(*Obj)(c.U).ok(want[0]) {
+			return bad("object referenced through unsafe.Pointer damaged")
 		}
 	}
 	g.cov.N["canary_checks"] += len(want)
